@@ -21,7 +21,7 @@ CHECKS = {
  "C10": ("trace validation of wild-card substitution of closed sub-formulae (Trace_Sem 'equal')",
          "Raw results of closed sub-formulae are fed back as wild-card context (1-3 simultaneous replacements); plain formulae through extended entry points with empty context."),
  "C11": ("law catalogue in TLA+ (Laws.tla, 78 laws + 3 reachability oracles) model-checked by TLC on all total Kripke structures up to 3 states x all argument sets (MC_Laws); both sides of every law judged against Hctl.Sat on small networks (Trace_Sem); TLC-exported catalogue replayed on the bundled benchmark models, BDD-equality facts checked by Trace_Laws; EF/AG/EU against the graph library's reachability",
-         "Fixed-point characterisations, dualities, monotonicity, distribution, idempotence, absorption, degenerate arguments, weak until, self-loops on steady states, binder definitions with and without domains, commuting quantifiers (two variables); the next-step and binder laws are also proved for arbitrary sets with TLAPS (Proofs.tla, 28 obligations). On benchmark-size models the check is agreement between two computations (law replay), not comparison with the reference semantics."),
+         "Fixed-point characterisations, dualities, monotonicity, distribution, idempotence, absorption, degenerate arguments, weak until, self-loops on steady states, binder definitions with and without domains, commuting quantifiers (two variables); the next-step and binder laws are also proved for arbitrary sets with TLAPS (Proofs.tla, 47 obligations). On benchmark-size models the check is agreement between two computations (law replay), not comparison with the reference semantics."),
  "C12": ("MC_Evaluator with pattern-heavy pools; step-level hook traces (Trace_Eval) and cache-protocol traces (Trace_Cache over Cache.tla); trace validation of pattern formulae vs pattern-defeating rewrites vs reference semantics (Trace_Sem 'denote','equal'); Attractor/Steady defined graph-theoretically in BoolNet.tla",
          "Patterns and near-misses at top level, under operators, in (domain-restricted) scopes, in batches, on constrained networks."),
  "C13": ("TLA+ weak-until semantics; trace validation of EW/AW formulae and of the defining equivalences evaluated through the tool (Trace_Sem 'denote','equal')",
@@ -52,7 +52,7 @@ CLI_NOTE = ("Trusted: TLC; the network parsers of biodivine-lib-param-bn; BDD te
 CLI = {
  "C16": ("archive as a map in TLA+ (Trace_Arch.RoundTrip, LinesMatch); trace validation of build_result_archive and of analyse_formulae -> zip directory -> model re-parse -> load_bdd_bundle, explicit sets before/after, entry i vs line i, wild-card probe",
          "Label->set maps incl. empty, full, beyond-unit and result sets, on aeon / bnet / sbml inputs, k = 0..2, fresh paths and paths holding an older larger archive; reloaded sets, entry list, formula list and model judged by TLC."),
- "C19": ("input/output relation of the converter in TLA+ (Converter.Related) evaluated by TLC on recorded runs of the binary (Trace_Conv); the Shannon-expansion algorithm model-checked against completeness for arity 0..3 (quick) / 0..4 (thorough: all 65 536 functions of four arguments) (MC_Converter)",
+ "C19": ("input/output relation of the converter in TLA+ (Converter.Related) evaluated by TLC on recorded runs of the binary (Trace_Conv); the Shannon-expansion algorithm model-checked against completeness for arity 0..3 (quick) / 0..4 (thorough: all 65 536 functions of four arguments) (MC_Converter); the induction step of that completeness - one Shannon level reaches every function of (a, x) by exactly one pair of cofactors - proved for arbitrary argument sets with TLAPS (Proofs.tla ShannonStep / ShannonSurjective / ShannonInjective)",
          "For each target TLC enumerates every valuation of the fresh constants and compares the set of truth tables with the set of instantiations of the input function; inputs stay inputs, no other targets, no crash."),
  "C17": ("state machine of one tool run in TLA+ (Cli.tla), model-checked over a small input space (MC_Cli: InOrder, FailQuiet, FailKeepsOld, Replaced, Complete, termination, refinement of the control skeleton CliMachine.tla whose safety properties are proved with TLAPS for every number of formulae); path-wise trace validation by TLC of the binary's stdout lines, exit status and -o archive against it (Trace_Cli.tla), reference sets from the library API",
          "Every recorded run is an independent behaviour: the machine runs, the recorded lines are consumed against its output; order, texts, the three counts, exhaustive state lists, archived sets, and message-not-crash for failure scenarios."),
